@@ -516,16 +516,6 @@ def binary_case(ctx, rep, case):
             if path not in want_abs:
                 stat = re.match(r"\s*\S.*\|\s+\d+ ", visible(txt)) is not None
                 modeline = "(mode " in visible(txt)
-                vis = visible(txt).strip()
-                empty_shape = ("--relative-paths" in mode and bool(prefix)
-                               and any(vis.endswith(e) and (vis.startswith("added: ") or vis.startswith("removed: "))
-                                       and not os.path.normpath(os.path.join(root, e)) == path
-                                       for e in ("sub/e.txt", "empty.md", "dir/e e.txt")))
-                if empty_shape:
-                    report(rep, "wrong-target:relative-paths:empty-file-section",
-                           "an empty added/deleted file under --relative-paths is shown unrelativized and linked below the prefix twice",
-                           dict(kind="binary", row=i, url=u, text=t, **case))
-                    continue
                 report(rep, "wrong-target:diff-stat-relative-path" if stat and "--relative-paths" in mode else
                               "wrong-target:mode-change-relative-path" if modeline and "--relative-paths" in mode else
                               "wrong-target:path", "a file link does not carry the absolute path of a file of the input",
